@@ -69,6 +69,21 @@ func knownCases() []tcase {
 		{Name: "ok-dhcp-reboot-rediscover", Kind: "dhcp", Path: "reboot-rediscover", Prefix: "renewed", Second: "seq:release", P: full},
 		{Name: "ok-dhcp-replace-cpe", Note: "replacement CPE takes the lease over on the same circuit: the old MAC keeps nothing, one accounting session", Kind: "dhcp-relay", Path: "replace-cpe", Prefix: "acked", Second: "none", P: withMAC2(relay)},
 		{Name: "ok-dhcp-move-circuit", Note: "client renews through another port: the old circuit-id resolves to nothing", Kind: "dhcp-relay", Path: "move-circuit", Prefix: "acked", Second: "none", P: withCid2(relay)},
+		{Name: "ok-dhcp-rediscover-abandon", Note: "lease lapses, re-DISCOVER retires it, the new OFFER is abandoned: nothing of the ended session may stay on the address (seeded regression C16-D leaves NAT/QoS)", Kind: "dhcp", Path: "expiry-rediscover.abandon", Prefix: "acked", Second: "none", P: full},
+		{Name: "ok-dhcp-rediscover-decline", Kind: "dhcp-relay", Path: "expiry-rediscover.decline", Prefix: "renewed", Second: "seq:release", P: relay},
+		{Name: "ok-dhcp-rediscover-release", Kind: "dhcp", Path: "expiry-rediscover.release", Prefix: "initreboot", Second: "none", P: full},
+		{Name: "ok-dhcp-rediscover-auth-fail", Kind: "dhcp", Path: "expiry-rediscover.auth-fail", Prefix: "acked", Second: "none", P: auth},
+		{Name: "ok-dhcp-release-rediscover-abandon", Kind: "dhcp", Path: "release-rediscover.abandon", Prefix: "acked", Second: "none", P: full},
+		{Name: "ok-dhcp-decline-rediscover", Kind: "dhcp-relay", Path: "decline-rediscover", Prefix: "acked", Second: "none", P: relay},
+		{Name: "ok-dhcp-release-offered", Kind: "dhcp", Path: "release", Prefix: "offered", Second: "none", P: full},
+		{Name: "ok-dhcp-fault-nat-entry", Note: "the kernel's subscriber_nat entry is gone when RELEASE comes: the failed Delete must not stop the other releases", Kind: "dhcp", Path: "release", Prefix: "acked", Second: "none", Fault: "rm-nat-entry", P: full},
+		{Name: "ok-dhcp-fault-cache-mac", Kind: "dhcp-relay", Path: "expiry", Prefix: "acked", Second: "none", Fault: "rm-cache-mac", P: relay},
+		{Name: "ok-dhcp-fault-acct-stop", Kind: "dhcp", Path: "decline", Prefix: "acked", Second: "none", Fault: "acct-stop", P: full},
+		{Name: "ok-teardown-fault-maps", Note: "the eBPF map update fails: Accounting-Stop, address release and session removal still happen", Kind: "teardown", Path: "admin-id", Prefix: "established", Second: "none", Fault: "maps", P: full},
+		{Name: "ok-teardown-fault-acct-stop", Kind: "teardown", Path: "client-padt", Prefix: "established", Second: "none", Fault: "acct-stop", P: full},
+		{Name: "ok-submgr-fault-release-ipv4", Note: "dual-stack session, ReleaseIPv4 fails: the IPv6 address must still be released (seeded regression C16-C skips it)", Kind: "submgr", Path: "admin", Prefix: "active", Second: "none", Fault: "release-ipv4", P: withDual(sub)},
+		{Name: "ok-submgr-fault-release-ipv6", Kind: "submgr", Path: "idle", Prefix: "addressed", Second: "none", Fault: "release-ipv6", P: withDual(sub)},
+		{Name: "ok-submgr-fault-acct-stop", Note: "RADIUS refuses the Stop of a disconnected session: everything else is released, the AccountingManager's retry delivers exactly one Stop", Kind: "submgr", Path: "coa-disconnect", Prefix: "active", Second: "none", Fault: "acct-stop-retried", P: withDual(sub)},
 		{Name: "kf-pppoe-lcp-term", Note: "LCP Terminate-Request on an established session: the address is never released", Kind: "pppoe", Path: "lcp-term", Prefix: "established", Second: "none", P: ppp},
 		{Name: "kf-pppoe-idle", Note: "idle sweep removes the session, the address stays allocated", Kind: "pppoe", Path: "idle", Prefix: "authed", Second: "none", P: ppp},
 		{Name: "kf-pppoe-auth-fail", Note: "re-authentication rejected, closed session reaped by the idle sweep, address stays allocated", Kind: "pppoe", Path: "auth-fail", Prefix: "established", Second: "none", P: ppp},
@@ -94,6 +109,7 @@ func withBg2(p params) params {
 	p.BgMACs = []hexb{{0x02, 0x16, 0, 0, 0, 0x11}, {0x02, 0x16, 0, 0, 0, 0x12}}
 	return p
 }
+func withDual(p params) params { p.DualStack = true; return p }
 func withCid2(p params) params { p.Cid2 = hexb("eth 1/2/3:200"); return p }
 
 func TestReplayKnown(t *testing.T) {
